@@ -1,17 +1,32 @@
-"""C15 (in-process half) - mailbox exchanges with a terminal are serialised
-and counted.
+"""C15 - mailbox exchanges with a terminal are serialised and counted.
 
-2-3 asyncio tasks share one real Terminal object and perform 1-2 mailbox
-exchanges each (sdo_read expedited, sdo_write expedited, read_object_entry)
-over the real roundtrip stack against the ESC model with the CoE server of
-mc/coe.py.  Explorer choices: when each task is started, which in-flight frame
-the bus delivers next, and after how many polls the terminal answers; the
-lock may already have been used (warm-up exchanges), so that the counter wraps
-within a run.  Judged on what the terminal sees in its write mailbox.
+In-process half: 2-3 asyncio tasks share one real Terminal object and perform
+1-2 mailbox exchanges each (sdo_read expedited, sdo_write expedited,
+read_object_entry) over the real roundtrip stack against the ESC model with
+the CoE server of mc/coe.py.  Explorer choices: when each task is started,
+which in-flight frame the bus delivers next, and after how many polls the
+terminal answers; the lock may already have been used (warm-up exchanges), so
+that the counter wraps within a run.  Lock kinds: MailboxLock (plain EtherCat)
+and ParallelMailboxLock (what ParallelEtherCat hands out; its lock file lives
+in the simulated OS of mc/simos.py, where record locks belong to the process
+as in POSIX).
 
-The lock comes from a factory (`LOCKS`); the oracle (`judge_events`,
+Cross-process half: 2-3 simulated processes (mc/simos.py: threads under a
+baton, explicit-state search with replay) each run the real LockFile.__init__
+(directly, as ParallelEtherCat.run does, or through pickle / __setstate__, as
+a spawned child does), ParallelEtherCat.get_mbx_lock and the real
+Terminal.sdo_read / sdo_write / read_object_entry with the real
+EtherCat.roundtrip; only the datagram transport is replaced: every datagram is
+applied directly to ONE shared ESC + CoE model.  Scheduling points: every
+os.makedirs / open / write / pread / pwrite / fstat / ftruncate / close and
+fcntl.lockf of ebpfcat.lock and every datagram; optionally one participant is
+killed at a scheduling point.  The lock file may not exist yet (creation
+window) or be left by an earlier session (counter 6/7: wraps within the run).
+
+Both halves are judged on what the terminal sees in its write mailbox.  The
+lock comes from a factory (`LOCKS`); the oracle (`judge_events`,
 `judge_results`) only needs the terminal-side event list and the users'
-results, so another lock kind or a cross-process driver can reuse both.
+results.
 """
 import asyncio
 import fcntl
@@ -29,12 +44,17 @@ from ebpfcat.ethercat import EtherCat, Terminal
 
 PROP = "C15"
 LEVEL = "model_checking"
-RULE = ("multisets of 2-3 task programs (1-2 exchanges each from sdo_read / "
-        "sdo_write / read_object_entry) x warm-up exchanges {0, 6[, seeded]} x lock "
-        "kind x deviation-bounded (start of each task, delivery order of "
-        "in-flight frames, response latency <= 2 polls); non-trivial = at "
-        "least two users exchanged mail; distinct = distinct (configuration, "
-        "choices)")
+RULE = ("in-process: multisets of 2-3 task programs (1-2 exchanges each from "
+        "sdo_read / sdo_write / read_object_entry) x warm-up exchanges {0, "
+        "6[, seeded]} x lock kind {MailboxLock, ParallelMailboxLock} x "
+        "deviation-bounded (start of each task, delivery order of in-flight "
+        "frames, response latency <= 2 polls); non-trivial = at least two "
+        "users exchanged mail; distinct = distinct (configuration, choices).  "
+        "cross-process: explicit-state search over all interleavings "
+        "(complete, or bounded by preemptions) of the lock-file operations "
+        "and datagrams of 2-3 simulated processes x optional crash; a state "
+        "is non-trivial when a byte lock is held (or the lock file is still "
+        "empty) while another participant is alive")
 
 OUT_OFF, OUT_SZ, IN_OFF, IN_SZ = 0x1000, 48, 0x1100, 48
 KINDS = "rwo"
@@ -42,8 +62,87 @@ K = 2
 
 # lock factories: (EtherCat object, terminal number) -> lock
 LOCKS = {
+    # what EtherCat.get_mbx_lock hands out
     "MailboxLock": lambda ec, no: ec.get_mbx_lock(no),
+    # what ParallelEtherCat.get_mbx_lock hands out, used by several tasks of
+    # ONE process (the lock file lives in a simulated OS, see lock_env)
+    "ParallelMailboxLock": lambda ec, no: lock_mod.ParallelMailboxLock(
+        lock_mod.LockFile(X_LOCKFILE, 8, 16), no),
+    # defect model for known-finding attribution only (never enumerated as a
+    # lock kind): the same plus mutual exclusion of the tasks of the process
+    "ParallelMailboxLock+task-lock": lambda ec, no: task_locked(
+        lock_mod.LockFile(X_LOCKFILE, 8, 16), no),
 }
+LOCK_KINDS = ("MailboxLock", "ParallelMailboxLock")
+KF_SAMEPROC = "C15-parallel-lock-same-process-tasks"
+
+
+def task_locked(lock_file, no):
+    """ParallelMailboxLock that additionally excludes tasks of its own
+    process with an asyncio.Lock (the one modelled deviation)"""
+    class TaskLocked(lock_mod.ParallelMailboxLock):
+        def __init__(self, lock_file, no):
+            super().__init__(lock_file, no)
+            self.task_lock = asyncio.Lock()
+
+        async def __aenter__(self):
+            await self.task_lock.acquire()
+            try:
+                return await super().__aenter__()
+            except BaseException:
+                self.task_lock.release()
+                raise
+
+        async def __aexit__(self, *a):
+            try:
+                return await super().__aexit__(*a)
+            finally:
+                self.task_lock.release()
+    return TaskLocked(lock_file, no)
+
+
+class LoggingRuntime(simos.DirectRuntime):
+    """one simulated process, no scheduling; remembers the lockf calls"""
+
+    def syscall(self, name, args, thunk, enabled=None, fail=None):
+        r = super().syscall(name, args, thunk, enabled, fail)
+        if name == "lockf":
+            self.log.append(args)
+        return r
+
+    def overlap(self):
+        """was the byte lock granted again while it was held?"""
+        held = False
+        for fd, cmd, length, start in self.log:
+            if cmd & fcntl.LOCK_UN:
+                held = False
+            elif held:
+                return True
+            else:
+                held = True
+        return False
+
+
+class lock_env:
+    """environment a lock kind needs while an execution runs"""
+
+    def __init__(self, lock_name):
+        self.parallel = lock_name.startswith("Parallel")
+        self.rt = None
+
+    def __enter__(self):
+        if self.parallel:
+            self.seams = simos.Seams()
+            self.seams.set(lock_mod, "os", simos.OsFacade())
+            self.seams.set(lock_mod, "fcntl", simos.FcntlFacade())
+            self.rt = LoggingRuntime(simos.World(["/run"]))
+            self.rt.__enter__()
+        return self
+
+    def __exit__(self, *a):
+        if self.parallel:
+            self.rt.__exit__(*a)
+            self.seams.restore()
 
 
 def user_index(u):
@@ -91,6 +190,10 @@ def message_user(msg):
 def judge_events(events):
     """events: ('in', mail) / ('out', mail) / ('fetch',) in terminal order.
     -> None or (what, expected, observed)"""
+    return judge_counters(events) or judge_exchanges(events)
+
+
+def judge_counters(events):
     counters = [coe.mbx_parse(e[1]).counter for e in events if e[0] == "in"]
     for i in range(1, len(counters)):
         want = counters[i - 1] % 7 + 1
@@ -99,6 +202,10 @@ def judge_events(events):
                 else "counter 0 after the first mail" if counters[i] == 0 \
                 else "counter is not the successor"
             return (what, counters[:i] + [want], counters[:i + 1])
+    return None
+
+
+def judge_exchanges(events):
     open_user = None        # an exchange whose response was not fetched yet
     for n, e in enumerate(events):
         if e[0] == "in":
@@ -178,6 +285,13 @@ async def program(term, u, prog):
 
 
 def execute(ch, conf, lock_name, k=K):
+    with lock_env(lock_name) as env:
+        out = _execute(ch, conf, lock_name, k)
+        out[0]["lock_overlap"] = bool(env.rt and env.rt.overlap())
+    return out
+
+
+def _execute(ch, conf, lock_name, k):
     tasks, warm = conf
     loop = vloop.VLoop()
     with loop:
@@ -293,6 +407,24 @@ def configurations(ctx):
 def work(item, res):
     conf, lock_name, bound, cap = item
     bad = []
+    model = []
+
+    def same_process_defect():
+        """does the whole bounded space of this configuration hold once the
+        tasks of the process exclude each other (the one modelled deviation
+        of KF_SAMEPROC)?  Decided once per configuration"""
+        if not model:
+            def look(ch, out):
+                if judge(conf, out):
+                    raise Enough()
+            try:
+                explore.dfs(lambda ch: execute(
+                    ch, conf, "ParallelMailboxLock+task-lock"), bound, look,
+                    max_execs=cap)
+                model.append(True)
+            except Enough:
+                model.append(False)
+        return model[0]
 
     def on_exec(ch, out):
         obs = out[0]
@@ -306,9 +438,14 @@ def work(item, res):
         res.outcomes.add((v[0] if v else "ok", len(obs["events"]) // 3,
                           len(ch.describe())))
         if v:
+            kf = None
+            if lock_name == "ParallelMailboxLock" and obs["lock_overlap"] \
+                    and same_process_defect():
+                kf = KF_SAMEPROC
             res.violation(dict(conf=conf, lock=lock_name,
-                               choices=list(ch.choices)), v[1], v[2],
-                          sig=core.digest([lock_name, v[0]]), note=v[0])
+                               choices=list(ch.choices)), v[1], v[2], kf=kf,
+                          sig=core.digest([lock_name, v[0], kf]),
+                          note=f"{lock_name}: {v[0]}")
             bad.append(1)
             if len(bad) >= 3:
                 raise Enough()
@@ -567,14 +704,18 @@ def x_monitor(run):
     sh = prm["shared"]
     out = []
     void = _void_users(run)
-    events = sh.events
-    if void:
-        # crash inside an exchange: the unfinished exchange is void; only
-        # the counters of the remaining mails are judged
-        events = [e for e, st in zip(sh.events, sh.ev_steps)
-                  if e[0] == "in" and not (message_user(e[1]) in void and
-                                           st > void[message_user(e[1])])]
-    v = judge_events(events)
+
+    def is_void(e, st):
+        return e[0] == "in" and message_user(e[1]) in void \
+            and st > void[message_user(e[1])]
+    if any(is_void(e, st) for e, st in zip(sh.events, sh.ev_steps)):
+        # a participant crashed inside an exchange after sending mail: that
+        # exchange is void; only the counters of the other mails are judged
+        v = judge_counters([e for e, st in zip(sh.events, sh.ev_steps)
+                            if not is_void(e, st)])
+    else:
+        void = {}
+        v = judge_events(sh.events)
     if v:
         out.append(dict(inv="exchange", kind=v[0], who=[],
                         expected=v[1], observed=v[2]))
@@ -698,8 +839,8 @@ def x_spaces(ctx):
                       None, 1, s),
               x_space("x2-existing7-2ex-crash1", ["rw", "wr"], [U, I], 7, 0,
                       None, 1, s),
-              x_space("x3-fresh-1ex-preempt2", ["r", "w", "o"], [I, I, U],
-                      None, 0, 2, 0, s),
+              x_space("x3-fresh-1ex", ["r", "w", "o"], [I, I, U], None, 0,
+                      None, 0, s),
               x_space("x3-existing-1ex-preempt2-crash1", ["r", "w", "r"],
                       [I, U, I], 1 + (4 + s) % 7, 0, 2, 1, s)]
     only = os.environ.get("C15_SPACES")       # development aid
@@ -777,7 +918,7 @@ def run(ctx):
     bound = 2 if ctx.quick else 3
     cap = 4000 if ctx.quick else 60000
     items = []
-    for lock_name in sorted(LOCKS):
+    for lock_name in LOCK_KINDS:
         for tasks in configurations(ctx):
             warms = (0, 6) if ctx.quick else \
                 sorted({0, 6, 1 + (3 + ctx.seed) % 5})
@@ -791,6 +932,8 @@ def run(ctx):
         raise core.Internal("non-deterministic execution")
     items = [items[i] for i in sorted(range(len(items)),
                                       key=lambda i: (i % 31, i))]
+    if os.environ.get("C15_PART") == "cross":     # development aid
+        items = items[:1]
     res = core.pmap(ctx, work, items, chunk=1)
     res.cov["inprocess_executions"] = res.cov.get("evaluations", 0)
     res.cov["inprocess_frames"] = res.cov.get("transitions", 0)
@@ -805,14 +948,38 @@ def run(ctx):
     res.cov["traces_validated_against_impl"] = res.cov["evaluations"]
     res.cov["configurations"] = len(items)
     res.cov["bound_completed"] = bound
-    res.cov["lock_kinds"] = sorted(LOCKS)
+    res.cov["lock_kinds"] = list(LOCK_KINDS)
     res.cov["model_selftest"] = stats
+    res.sample(dict(space="x2-fresh-1ex", schedule="all interleavings",
+                    meaning="cross-process: two processes create/open the "
+                            "lock file, one sdo_read and one sdo_write"))
     res.sample(dict(tasks=[["r", "w"], ["o"]], warm=6,
                     meaning="user 0: sdo_read then sdo_write, user 1: "
                             "read_object_entry, after 6 earlier exchanges "
                             "(the counter wraps from 7 to 1 during the run)"))
     res.assumptions += [
-        "in-process half only: lock kind MailboxLock (EtherCat.get_mbx_lock)",
+        "in-process lock kinds: MailboxLock (EtherCat.get_mbx_lock) and "
+        "ParallelMailboxLock on a LockFile in the simulated OS (one process: "
+        "lockf never refuses); a ParallelMailboxLock violation is attributed "
+        "to the known finding only if the byte lock was granted twice AND "
+        "the configuration's whole bounded space holds once the tasks also "
+        "exclude each other with an asyncio.Lock",
+        "cross-process: every participant uses the same terminal_addr_range "
+        "(8 bytes) and the same station address; a datagram is applied to "
+        "the terminal atomically at its scheduling point (frames of "
+        "different processes are not merged, lost or reordered); "
+        "makedirs and each file operation are atomic steps; a participant "
+        "spinning on a held byte lock is disabled until it is released",
+        "cross-process, crash: a participant killed inside an exchange "
+        "before it wrote the counter back leaves a void exchange: its mails "
+        "of that exchange are not counted when the successor relation is "
+        "judged, interleaving with it is not judged, and survivors that "
+        "fail inside ebpfcat/ethercat.py on the stale response are not "
+        "blamed; failures inside ebpfcat/lock.py always are",
+        "cross-process: bytes of the lock file other than the terminal's own "
+        "must keep their value (they are other terminals' counters)",
+        "not covered here: the last leaver's LockFile.remove() racing with a "
+        "new session (the dispatcher race of C23)",
         "the first mail the terminal sees may carry any counter; every "
         "later one must carry the successor in the cycle 1..7",
         "an exchange is open from the request until its response has been "
